@@ -160,7 +160,10 @@ class World:
 def twin_of(data):
     """the datagram reduced to what a discovery endpoint may act on: the SOME/IP messages up to the
     first undecodable one, keeping only decodable SD notifications; those whose unicast flag is clear
-    lose their entries"""
+    lose their entries.  'Decodable' needs the library's decoder *and* the independent decoder to
+    accept the payload (they agree on all 337 k accepted inputs of C20's corpus): a payload only the
+    library accepts - e.g. because its decoder remembers an earlier message - is 'undecodable', and
+    acting on it shows up as a difference to the twin."""
     keep = []
     buf = data
     while buf:
@@ -177,6 +180,10 @@ def twin_of(data):
             sdh, _ = hdr.SOMEIPSDHeader.parse(m.payload)
             sdh.resolve_options()
         except Exception:  # noqa: BLE001
+            continue
+        try:
+            refcodec.dec_sd(m.payload)
+        except refcodec.RefError:
             continue
         if not sdh.flag_unicast:
             flags = (0x80 if sdh.flag_reboot else 0) | sdh.flags_unknown
